@@ -157,6 +157,46 @@ Proof.
   exists bytes, (reparsed_list 0 ms), st. repeat split; assumption.
 Qed.
 
+(* the `-o` path (Dlt/WritePipeline.v: fs_path, open_for_write, overwrite, convert_o_path): the output thread opens it with
+   File::create (write + create + TRUNCATE) and writes sequentially from offset 0.  The clause "exporting an unfiltered file
+   preserves every message in order and exporting the export is byte-identical" is about the file the command leaves
+   behind, so it has to hold whatever the path held before: the content after the command is a function of the input only *)
+Theorem C02_export_independent_of_prior_output_content (prior1 prior2 : fs_path) (data : bytes) :
+  convert_o_path prior1 data = convert_o_path prior2 data.
+Proof. exact (convert_o_path_prior_irrelevant prior1 prior2 data). Qed.
+
+(* ... and it is exactly what the writer wrote (nothing of the old content survives, absent or present, shorter or longer) *)
+Theorem C02_output_path_holds_exactly_the_export (prior : fs_path) (data bytes : bytes) :
+  convert_o data = Ok (WOk bytes) -> convert_o_path prior data = Ok (Some bytes).
+Proof. intros H. rewrite convert_o_path_is_convert_o, H. reflexivity. Qed.
+
+(* the export clause on the paths: ANY well-formed input file with micros < 10^6, ANY prior state of the output path and
+   ANY prior state of the path the export is exported to *)
+Theorem C02_convert_export_roundtrip_over_any_output_path (data : bytes) ms st rest (prior prior2 : fs_path) :
+  wf_bytes data -> file_micros_ok data -> run_iter 0 data = Ok (ms, st, rest) ->
+  exists bytes ms' st',
+    convert_o_path prior data = Ok (Some bytes) /\
+    run_iter 0 bytes = Ok (ms', st', []) /\ Forall2 same_fields ms ms' /\ map m_index ms' = map m_index ms /\
+    i_skipped st' = 0 /\ i_processed st' = blen bytes /\
+    convert_o_path prior2 bytes = Ok (Some bytes).
+Proof.
+  intros Hd Hm Hr.
+  destruct (C02_convert_export_roundtrip data ms st rest Hd Hm Hr) as (bytes & ms' & st' & H1 & H2 & H3 & H4 & H5 & H6 & H7).
+  exists bytes, ms', st'.
+  rewrite (C02_output_path_holds_exactly_the_export prior data bytes H1), (C02_output_path_holds_exactly_the_export prior2 bytes bytes H7).
+  repeat split; assumption.
+Qed.
+
+(* one path written by several commands in a row (a -> out, b -> out, ...): after every command the path is in the state
+   that command alone produces on a fresh path; in particular the final state depends on the last input only *)
+Theorem C02_export_chain_over_one_path (prior : fs_path) (datas : list bytes) :
+  convert_o_chain prior datas = map (convert_o_path None) datas.
+Proof. exact (convert_o_chain_each datas prior). Qed.
+
+Theorem C02_export_chain_last_input_only (prior : fs_path) (datas : list bytes) (d : bytes) dflt :
+  last (convert_o_chain prior (datas ++ [d])) dflt = convert_o_path None d.
+Proof. exact (convert_o_chain_last datas prior d dflt). Qed.
+
 (* the evaluation shortcut of the correspondence shards for the large files of the export family (Exec/C02.v, CExportRuns)
    yields what the full evaluation of the pipeline model yields *)
 Theorem C02_large_export_evaluation (ms : list msg) (inp : bytes) :
@@ -195,6 +235,27 @@ Proof.
   split; [eexists; vm_compute; reflexivity|].
   split; [vm_compute; split; reflexivity|]. split; [vm_compute; repeat split; reflexivity|].
   split; vm_compute; reflexivity.
+Qed.
+
+(* non-vacuity of the path layer: the truncation is what the statements rest on -- a writer starting from the old content of
+   a LONGER file (open without truncate) leaves the old tail behind, e.g. the 120-byte file of C02_pipeline_nonvacuous
+   written over a file of 5 more bytes; with File::create the path holds the export in both cases *)
+Example C02_output_path_nonvacuous :
+  (forall c b, (length b < length c)%nat -> overwrite (open_for_write false (Some c)) b <> b) /\
+  overwrite (open_for_write false (Some [1; 2; 3; 4; 5])) [9; 9] = [9; 9; 3; 4; 5] /\
+  overwrite (open_for_write true (Some [1; 2; 3; 4; 5])) [9; 9] = [9; 9] /\
+  exists data, write_all ex_pipeline_msgs = Ok (WOk data) /\
+    convert_o_path None data = Ok (Some data) /\ convert_o_path (Some []) data = Ok (Some data) /\
+    convert_o_path (Some (data ++ [68; 76; 84; 1; 0])) data = Ok (Some data) /\
+    overwrite (open_for_write false (Some (data ++ [68; 76; 84; 1; 0]))) data = data ++ [68; 76; 84; 1; 0].
+Proof.
+  split; [intros c b H; exact (proj2 (overwrite_keeps_tail c b H))|].
+  split; [reflexivity|]. split; [reflexivity|].
+  destruct C02_pipeline_nonvacuous as (data & Hw & _ & Hlen & _ & _ & _ & _ & Hc).
+  exists data. split; [exact Hw|].
+  rewrite !(C02_output_path_holds_exactly_the_export _ data data Hc).
+  split; [reflexivity|]. split; [reflexivity|]. split; [reflexivity|].
+  unfold overwrite, open_for_write. rewrite skipn_app, skipn_all, PeanoNat.Nat.sub_diag. reflexivity.
 Qed.
 
 (* byte-level integer codecs the above rests on *)
@@ -245,6 +306,12 @@ Print Assumptions C02_lifecycle_stage_keeps_every_message_in_order.
 Print Assumptions C02_convert_export_roundtrip.
 Print Assumptions C02_convert_reader_wiring.
 Print Assumptions C02_convert_normal_form_fixed_point.
+Print Assumptions C02_export_independent_of_prior_output_content.
+Print Assumptions C02_output_path_holds_exactly_the_export.
+Print Assumptions C02_convert_export_roundtrip_over_any_output_path.
+Print Assumptions C02_export_chain_over_one_path.
+Print Assumptions C02_export_chain_last_input_only.
+Print Assumptions C02_output_path_nonvacuous.
 Print Assumptions C02_large_export_evaluation.
 Print Assumptions C02_pipeline_nonvacuous.
 Print Assumptions C02_u16_be_roundtrip.
